@@ -374,6 +374,22 @@ func (s *Store) Revoke(id string, created int64) bool {
 	return true
 }
 
+// Corrupt flips one bit of a stored row's encrypted key out of band (copy-on-write): the row
+// can still be loaded but no longer unwraps.
+func (s *Store) Corrupt(id string, created int64) bool {
+	s.mu.Lock()
+	defer s.mu.Unlock()
+	r := s.rows[id][created]
+	if r == nil || s.Backing != nil {
+		return false
+	}
+	cp := *cloneEKR(r.Rec)
+	cp.EncryptedKey[len(cp.EncryptedKey)/2] ^= 0x10
+	r.Rec = &cp
+	r.Snapshot = SnapshotEKR(&cp)
+	return true
+}
+
 // Get returns the row (or nil) without logging.
 func (s *Store) Get(id string, created int64) *Row {
 	s.mu.Lock()
